@@ -33,9 +33,9 @@ def gen_cases(tier, seed):
         for rep in range(6 if q else 250):
             cases.append({"type": "jax", "class": cl, "s": int(rng.integers(1 << 30)), "n": int(rng.integers(2, 9)),
                           "group": "jax-%d" % (rep % 8), "cost": 3})
-    mols = ["h2", "h4", "lih"] if q else ["h2", "h4", "lih", "h4ring", "h2-631g", "h4-631g", "oh"]
+    mols = ["h2", "h4", "lih", "h2far", "h6chain"] if q else ["h2", "h4", "lih", "h4ring", "h2-631g", "h4-631g", "oh", "h2far", "h6chain", "lihfar"]
     for m in mols:
-        for thr in ([1e-4, 1e-7] if q else [1e-3, 1e-5, 1e-7, 1e-9]):
+        for thr in ([1e-4, 1e-5, 1e-7] if q else [1e-3, 1e-4, 1e-5, 1e-7, 1e-9]):
             cases.append({"type": "chunked", "mol": m, "thr": thr, "s": int(rng.integers(1 << 30)), "group": "mol-" + m, "cost": 3})
     return cases
 
@@ -169,8 +169,14 @@ def _mol(name, rng):
     from pyscf import gto
 
     j = lambda: float(rng.normal() * 0.05)
-    if name.startswith("h2"):
+    if name.startswith("h2") and name != "h2far":
         atom = "H 0 0 0; H 0 0 %f" % (0.74 + j())
+    elif name == "h2far":      # extended geometries: AO pairs with tiny diagonal (ij|ij) that still couple to strong pairs
+        return gto.M(atom="H 0 0 0; H 0 0 %f" % (8.0 + j()), unit="bohr", basis="sto-3g", verbose=0)
+    elif name == "h6chain":
+        return gto.M(atom="; ".join("H 0 0 %f" % (i * 2.4 + j()) for i in range(6)), unit="bohr", basis="sto-6g", verbose=0)
+    elif name == "lihfar":
+        return gto.M(atom="Li 0 0 0; H 0 0 %f" % (6.0 + j()), unit="bohr", basis="6-31g", verbose=0)
     elif name.startswith("h4ring"):
         atom = "; ".join("H %f %f 0" % (1.2 * np.cos(t) + j(), 1.2 * np.sin(t) + j()) for t in np.arange(4) * np.pi / 2)
     elif name.startswith("h4"):
